@@ -24,7 +24,7 @@ From Coq Require Import ZArith QArith List Bool Lia Sorting.Permutation.
 Import ListNotations.
 From Osmo Require Import Base.DecModel CL.TickMath CL.CLMath CL.CLPool CL.CLSwap CL.CLStep CL.Ideal
   CLR.Accum CLR.Rewards CLR.RSwap CLR.RStep C07.Base C07.LP C08.Proj C08.Dom
-  C08.PaidOps C08.PaidHist C08.Inc C08.IncHist C01.Funds C01.Exact C01.Solvent C01.SwapPath C01.Potential C01.SwapSolvent C01.History C01.Full C01.SpreadAcc.
+  C08.PaidOps C08.PaidHist C08.Inc C08.IncHist C01.Funds C01.Exact C01.Solvent C01.SwapPath C01.Potential C01.SwapSolvent C01.History C01.Full C01.SpreadAcc C01.Exit C01.ExitHist.
 Open Scope Z_scope.
 
 (* ==== the full statement (DESIGN.md section 5, C01) ==== *)
@@ -132,6 +132,46 @@ Theorem C01_dust_nonneg_pool_partial : forall sp spf ssc isc users t ops, 0 < sp
 Proof. exact dust_nonneg. Qed.
 Print Assumptions C01_dust_nonneg_pool_partial.
 
+(* withdraw_all_succeeds, SUCCESS of the principal half, PARTIAL (it is the principal transfer: CL's WithdrawPosition proper, i.e. all
+   its validity checks, CalcActualAmounts' BigDec bit-length checks and the transfer out of the pool account; the reward collection
+   that the keeper performs inside the same message is not covered).  In every reachable state whose positions carry a valid
+   LegacyDec liquidity (<= 2^256 10^18 - 1 raw: the Go code panics beyond, the model's tick bookkeeping is unbounded) and whose
+   position owners are bank users of the model (finite user list; transfers do not check the recipient), withdrawing ALL positions
+   fully, in ANY order, never fails and never hits the insufficient-balance branch of the pool account; nothing is left open and
+   the pool account ends >= 0.  [exit_seq] = iterate CL's withdraw_position over the ids (C01/Exit.v). *)
+Theorem C01_withdraw_all_succeeds_partial : forall sp spf ssc isc users t ops ids, 0 < sp -> 0 <= spf <= 500000000000000000 ->
+  let rs0 := rinit sp spf ssc isc users t in
+  let s := r_base (rrun rs0 ops) in
+  hist_cost rs0 ops < 2 * 10 ^ 36 -> liq_bounded s -> owners_have_accounts s ->
+  Permutation ids (map ps_id (s_pos s)) ->
+  exists s', exit_seq s ids = Some s' /\ s_pos s' = [] /\
+    0 <= fst (b_pool (s_bank s')) /\ 0 <= snd (b_pool (s_bank s')).
+Proof. exact exit_all_base_reachable. Qed.
+Print Assumptions C01_withdraw_all_succeeds_partial.
+
+(* the same on the reward-aware exit sequence of C01_full (Full.withdraw_seq = WithdrawPosition with its reward bookkeeping):
+   after ANY successful prefix of ANY exit sequence, for every position still open the principal part of its full withdrawal
+   succeeds - so [withdraw_seq] can only fail inside the reward bookkeeping (claim of incentives / spread rewards) *)
+Theorem C01_exit_principal_succeeds_partial : forall sp spf ssc isc users t ops ids rs' q, 0 < sp -> 0 <= spf <= 500000000000000000 ->
+  let rs0 := rinit sp spf ssc isc users t in
+  let rs := rrun rs0 ops in
+  hist_cost rs0 ops < 2 * 10 ^ 36 -> liq_bounded (r_base rs) -> owners_have_accounts (r_base rs) ->
+  withdraw_seq rs ids = Some rs' -> In q (s_pos (r_base rs')) ->
+  exists s'' amts, withdraw_position (r_base rs') (ps_owner q) (ps_id q) (ps_liq q) = Some (s'', amts).
+Proof.
+  intros sp spf ssc isc users t ops ids rs' q Hsp Hspf rs0 rs Hc LB UA H QIn.
+  eapply (exit_principal_succeeds rs (hist_cost rs0 ops)); [split; [apply hist_cost_nonneg|exact Hc]| |exact H|exact QIn].
+  apply exit_ok_reachable; assumption.
+Qed.
+Print Assumptions C01_exit_principal_succeeds_partial.
+
+(* the arithmetic behind it: CalcActualAmounts never fails for the removal of a valid amount of liquidity from a valid range *)
+Theorem C01_calc_actual_amounts_total : forall p lo hi L, 0 < p_spacing p -> price_consistent p -> 0 < p_sqrt p ->
+  validate_tick_range (p_spacing p) lo hi = true -> 0 < L <= liq_max ->
+  exists x0 x1, calc_actual_amounts p lo hi (- L) = Some (x0, x1).
+Proof. exact calc_actual_amounts_total. Qed.
+Print Assumptions C01_calc_actual_amounts_total.
+
 (* spread-reward account conjunct of Solv, PARTIAL: under the explicit rounding budget, and for states whose claim queries succeed *)
 Theorem C01_spread_covered_partial : forall sp spf ssc isc users t ops c, 0 < sp -> 0 <= spf <= 500000000000000000 -> 0 < ssc ->
   let rs0 := rinit sp spf ssc isc users t in
@@ -192,4 +232,22 @@ Proof.
   split; [eexists; eexists; eexists; split; [left; reflexivity|]; split; [vm_compute; reflexivity|]; split; vm_compute; reflexivity|].
   split; [vm_compute; reflexivity|]. split; [eexists; split; [vm_compute; reflexivity|]; split; vm_compute; reflexivity|].
   split; [vm_compute; reflexivity|]. eexists. split; [vm_compute; reflexivity|]. vm_compute; reflexivity.
+Qed.
+
+(* the hypotheses of C01_withdraw_all_succeeds_partial hold in the example state, and there the whole reward-aware exit
+   sequence (not only its principal part) succeeds in both orders *)
+Definition ex_rs : rstate := Eval vm_compute in rrun ex_init ex_hist.
+Example C01_exit_nonvacuous :
+  ex_rs = rrun ex_init ex_hist /\
+  liq_bounded (r_base ex_rs) /\ owners_have_accounts (r_base ex_rs) /\
+  (exists rs', withdraw_seq ex_rs (open_ids ex_rs) = Some rs' /\ s_pos (r_base rs') = []) /\
+  (exists rs', withdraw_seq ex_rs (rev (open_ids ex_rs)) = Some rs' /\ s_pos (r_base rs') = []).
+Proof.
+  split; [vm_compute; reflexivity|].
+  split.
+  { intros q QIn. unfold ex_rs in QIn. cbn [r_base s_pos] in QIn. destruct QIn as [H|[H|[]]]; subst q; vm_compute; discriminate. }
+  split.
+  { intros q QIn. unfold ex_rs in QIn. cbn [r_base s_pos] in QIn.
+    destruct QIn as [H|[H|[]]]; subst q; vm_compute; (split; [discriminate|reflexivity]). }
+  split; eexists; (split; [vm_compute; reflexivity|reflexivity]).
 Qed.
